@@ -26,7 +26,7 @@ def run(tier, seed, only):
                           bound="%d indistinguishable samples, %d anchors, seed %d; common distance vector symbolic; refinement loop proved to stop within 3 rounds" % (ns, na, seed),
                           desc="k-means split of indistinguishable sequences yields two non-empty halves"))
     import json
-    ev_path = os.path.join(core.EVIDENCE, "C08.json")
+    ev_path = os.path.join(core.EVIDENCE, "C08.json") if not only else os.path.join(core.BUILD, "C08.partial-evidence.json")
     ev1 = json.load(open(ev_path))
     os.rename(ev_path, ev_path + ".o1")
     build_o1 = os.path.join(core.BUILD, "C08")
